@@ -120,7 +120,7 @@ def check(ctx):
                    site='engine/move_bitboards.cpp:%s_MAGICS[%d]' % (kind, sq), sample=(sq < 1))
     ctx.info['subsets_enumerated'] = total
     ctx.info['exhaustive'] = True
-    ctx.floor('C11.R1.magic.subsets', total, 107648, 'relevant-occupancy subsets')
+    ctx.floor('C11.R1.magic.subsets', total, 107648, 'relevant-occupancy subsets', exact=True)
 
     # ---- R2 writer == reader ----------------------------------------------------------------
     for kind in ('BISHOP', 'ROOK'):
@@ -372,74 +372,54 @@ def _role_norm(n, roles):
 
 
 def _index_shape(f, kind, reader):
-    """(table, row role, column expression) with locals renamed to roles SQ / B"""
+    """('TABLE[SQ][(B*MAGICS[SQ])>>(64-BITS[SQ])]', 'B subset of MASK[SQ]') when every magic-indexed access of the table has that
+    form — however the key is spelt (named local, helper function) — else None"""
+    import re as _re
+    from rules.norm import Norm
+    from rules.common import written_value
     table = 'engine::%s_TABLE' % kind
-    mask = 'engine::%s_MASK' % kind
-    # find TABLE[sq][key] accesses
-    accs = []
-    for n in f.all_nodes():
-        if n['k'] == 'ArraySubscriptExpr':
-            base = strip_casts(kids(n)[0])
-            if base['k'] == 'ArraySubscriptExpr' and strip_casts(kids(base)[0]).get('ref', {}).get('n') == table:
-                row = strip_casts(kids(base)[1])
-                col = strip_casts(kids(n)[1])
-                accs.append((n, row, col))
-    if not accs:
-        return None
+    nm = Norm(f)
     shapes = set()
-    for n, row, col in accs:
-        if col.get('ref', {}).get('k') != 'Local':
-            # initialisation loop TABLE[sq][i] = all_squares_bb (writer only)
-            if not reader and access_kind(f, n) == 'write':
-                continue
+    n_acc = 0
+    for n in f.all_nodes():
+        if n['k'] != 'ArraySubscriptExpr':
             continue
-        cid = col['ref']['id']
-        # definition of the column variable
-        kdef = None
-        for d in f.all_nodes():
-            if d['k'] == 'VarDecl' and d.get('id') == cid and kids(d):
-                kdef = kids(d)[0]
-        if kdef is None:
-            # plain loop variable (the fill loop): skip
+        base = strip_casts(kids(n)[0])
+        if not (base['k'] == 'ArraySubscriptExpr' and strip_casts(kids(base)[0]).get('ref', {}).get('n') == table):
             continue
-        roles = {}
-        if row.get('ref', {}).get('id') is not None:
-            roles[row['ref']['id']] = 'SQ'
-        # blockers role: the operand multiplied by MAGICS
-        bvar = None
-        for x in walk(kdef):
-            if x['k'] == 'BinaryOperator' and x.get('op') == '*':
-                a = strip_casts(kids(x)[0])
-                if a.get('ref', {}).get('k') in ('Local', 'Parm'):
-                    bvar = a['ref']['id']
-        if bvar is None:
-            # not a magic-indexed access: only the constant pre-fill of the row is acceptable
-            from rules.common import written_value
+        row = nm.s(kids(base)[1])
+        col_n = strip_casts(kids(n)[1])
+        col = nm.s(col_n)
+        pat = r'\(\((?:(?P<b1>.+)\*%s_MAGICS\[(?P<s1>\w+)\]|%s_MAGICS\[(?P<s2>\w+)\]\*(?P<b2>.+))\)>>\(64-%s_INDEX_BITS\[(?P<s3>\w+)\]\)\)' % (kind, kind, kind)
+        m = _re.fullmatch(pat, col)
+        if not m:
+            # the constant pre-fill of a row (writer only): TABLE[sq][i] = <constant>
             v = written_value(f, n) if access_kind(f, n) == 'write' else None
-            if v is None or const_of(strip_casts(v)) is None:
-                return None
-            continue
-        roles[bvar] = 'B'
-        # B must be a subset of MASK[SQ]
+            if not reader and v is not None and const_of(strip_casts(v)) is not None:
+                continue
+            return None
+        n_acc += 1
+        sqv = m.group('s1') or m.group('s2')
+        bexp = m.group('b1') or m.group('b2')
+        if sqv != m.group('s3') or row != sqv:
+            return None
+        # B is a subset of MASK[SQ]
         sub = False
-        for x in f.all_nodes():
-            if x['k'] == 'CompoundAssignOperator' and x.get('op') == '&=' and \
-                    strip_casts(kids(x)[0]).get('ref', {}).get('id') == bvar:
-                m = _role_norm(kids(x)[1], roles)
-                if m == ('ArraySubscriptExpr', None, (('ImplicitCastExpr', None, (short(mask),)), 'SQ')) or \
-                        (isinstance(m, tuple) and short(mask) in str(m) and 'SQ' in str(m)):
-                    # the masking must precede the key computation
-                    sub = f.cfg.node_dominates(x, kdef)
-            if x['k'] == 'VarDecl' and x.get('id') == bvar and kids(x):
-                c = strip_casts(kids(x)[0])
-                if short(c.get('callee', {}).get('n', '')) == 'get_blockers_from_index':
-                    m = _role_norm(kids(c)[2], roles)
-                    if isinstance(m, tuple) and short(mask) in str(m) and 'SQ' in str(m):
-                        sub = True
+        if _re.fullmatch(r'get_blockers_from_index\(\w+,%s_MASK\[%s\]\)' % (kind, sqv), bexp):
+            sub = True
+        else:
+            for x in f.all_nodes():
+                if x['k'] == 'CompoundAssignOperator' and x.get('op') == '&=' and Norm(f, inline=False).s(kids(x)[0]) == bexp and \
+                        nm.s(kids(x)[1]) == '%s_MASK[%s]' % (kind, sqv) and f.cfg.node_dominates(x, n):
+                    # nothing widens B between the masking and the access
+                    later = [w for w in f.all_nodes() if w['k'] in ('BinaryOperator', 'CompoundAssignOperator') and
+                             w.get('op', '') in ('=', '|=', '^=', '+=') and Norm(f, inline=False).s(kids(w)[0]) == bexp and
+                             f.cfg.node_dominates(x, w)]
+                    sub = not later
         if not sub:
             return None
-        shapes.add(('TABLE[SQ][key]', str(_role_norm(kdef, roles)).replace(kind + '_', 'X_')))
-    if len(shapes) != 1:
+        shapes.add(('TABLE[SQ][(B*MAGICS[SQ])>>(64-BITS[SQ])]', 'B subset of MASK[SQ]'))
+    if len(shapes) != 1 or not n_acc:
         return None
     return next(iter(shapes))
 
@@ -496,69 +476,42 @@ def _rays_store_ok(f):
 
 
 def _ray_attack_shape(f, dvals):
-    """decision table of the lsb/msb choice against the sign of each ray's direction"""
-    params = {q['name']: q['id'] for q in f.params}
-    if 'ray' not in params:
-        return False, 'no ray parameter'
-    ifs = [n for n in f.all_nodes() if n['k'] == 'IfStmt']
-    sel = None
-    for n in ifs:
-        ch = n.get('ch') or []
-        if len(ch) >= 3 and ch[2]:
-            tcalls = [short(c['n']) for x in walk(ch[1]) for c in [x.get('callee')] if c and short(c['n']) in ('lsb', 'msb')]
-            ecalls = [short(c['n']) for x in walk(ch[2]) for c in [x.get('callee')] if c and short(c['n']) in ('lsb', 'msb')]
-            if tcalls and ecalls:
-                sel = (ch[0], tcalls[0], ecalls[0])
-    if sel is None:
-        return False, 'no lsb/msb selection found'
-    cond, t, e = sel
+    """for each of the eight rays: with the ray fixed, the function returns RAYS[ray][sq] minus the ray behind the blocker picked
+    by lsb (rays stepping to higher squares) or msb; independent of whether the choice is an if/else or a conditional expression"""
+    tab = _ray_table(f)
+    if tab is None:
+        return False, 'the result is not RAYS[ray][sq] & ~RAYS[ray][lsb|msb(blockers & RAYS[ray][sq])] for every ray'
     for ray in range(8):
-        val = _eval_cond(cond, params['ray'], ray)
-        if val is None:
-            return False, 'selection predicate not a comparison of ray with constants'
-        pick = t if val else e
         want = 'lsb' if dvals and dvals[ray] > 0 else 'msb'
-        if pick != want:
-            return False, 'ray %d (direction %+d) uses %s' % (ray, dvals[ray] if dvals else 0, pick)
-    # return shape: RAYS[ray][sq] & ~RAYS[ray][blocker]
-    rets = [n for n in f.all_nodes() if n['k'] == 'ReturnStmt']
-    ok_ret = False
-    for r in rets:
-        e2 = strip_casts(kids(r)[0])
-        if e2['k'] == 'BinaryOperator' and e2.get('op') == '&':
-            a, b = [strip_casts(x) for x in kids(e2)]
-            if b['k'] == 'UnaryOperator' and b.get('op') == '~':
-                bb = strip_casts(kids(b)[0])
-                ka, kb = expr_key(kids(strip_casts(kids(a)[0]))[0]) if a['k'] == 'ArraySubscriptExpr' else None, None
-                if a['k'] == 'ArraySubscriptExpr' and bb['k'] == 'ArraySubscriptExpr':
-                    same_row = expr_key(kids(a)[0]) == expr_key(kids(bb)[0])
-                    col_a = short(strip_casts(kids(a)[1]).get('ref', {}).get('n', ''))
-                    col_b = short(strip_casts(kids(bb)[1]).get('ref', {}).get('n', ''))
-                    ok_ret = same_row and col_a == 'sq' and col_b == 'blocker'
-    if not ok_ret:
-        return False, 'return is not RAYS[ray][sq] & ~RAYS[ray][blocker]'
+        if tab[ray] != want:
+            return False, 'ray %d (direction %+d) uses %s' % (ray, dvals[ray] if dvals else 0, tab[ray])
     return True, 'decision table over 8 rays agrees with direction signs'
 
 
 def _ray_table(f):
-    """['lsb'|'msb'] chosen for ray 0..7, or None"""
-    params = {q['name']: q['id'] for q in f.params}
-    if 'ray' not in params:
+    """['lsb'|'msb'] chosen for ray 0..7, or None when the returned expression has another shape"""
+    import re as _re
+    from rules.norm import Norm
+    if [q['name'] for q in f.params][:3] != ['sq', 'ray', 'blockers']:
         return None
-    for n in f.all_nodes():
-        ch = n.get('ch') or []
-        if n['k'] == 'IfStmt' and len(ch) >= 3 and ch[2]:
-            t = [short(c['n']) for x in walk(ch[1]) for c in [x.get('callee')] if c and short(c['n']) in ('lsb', 'msb')]
-            e = [short(c['n']) for x in walk(ch[2]) for c in [x.get('callee')] if c and short(c['n']) in ('lsb', 'msb')]
-            if t and e:
-                out = []
-                for ray in range(8):
-                    v = _eval_cond(ch[0], params['ray'], ray)
-                    if v is None:
-                        return None
-                    out.append(t[0] if v else e[0])
-                return out
-    return None
+    rets = [r for r in f.all_nodes() if r['k'] == 'ReturnStmt']
+    out = []
+    for ray in range(8):
+        nm = Norm(f, {'ray': ray})
+        picks = set()
+        for r in rets:
+            s = nm.s(kids(r)[0])
+            if s == 'RAYS[%d][sq]' % ray:
+                continue            # the early exit for "no blocker on this ray"
+            m = _re.fullmatch(r'\(RAYS\[%d\]\[sq\]&~\(RAYS\[%d\]\[(lsb|msb)\(\((?:RAYS\[%d\]\[sq\]&blockers|blockers&RAYS\[%d\]\[sq\])\)\)\]\)\)'
+                              % (ray, ray, ray, ray), s)
+            if not m:
+                return None
+            picks.add(m.group(1))
+        if len(picks) != 1:
+            return None
+        out.append(picks.pop())
+    return out
 
 
 def _masked_first(f):
